@@ -579,3 +579,389 @@ def _replay(self, path):
 
 C04.explore = _explore
 C04.replay = _replay
+
+
+# =============================================================================================
+# stream `nested-model`: crash sweep on the hierarchical engine against its Lean model (C04N)
+# =============================================================================================
+# Generated hierarchical machines (compound / parallel / parallel-in-parallel configurations, global and local
+# transitions, final states with on_final lists, queued and unqueued, callbacks that trigger further events): the clean
+# run is recorded on HierarchicalMachine, then EVERY callback position of that trace (prepare_event, prepare, conditions,
+# unless, before, every on_exit / on_enter of the exit / enter chains, on_final, after, finalize_event; on_exception
+# handlers and finalize callbacks as second faults) is made the raise point — Exception / BaseException / builtin kinds,
+# with and without on_exception handlers.  Every variant is judged by
+#   * trace equality + state value after every call with the Lean model of nesting.py (`nested4` request),
+#   * the verified containment acceptor `C04N.checkTrace` on the implementation's trace (`c04n` request) — on
+#     HierarchicalMachine and on one of the other synchronous hierarchical classes (whose trace must equal HM's),
+#   * the survivor-vs-fresh differential (a continuation on the machine that survived vs a fresh machine placed in the
+#     same configuration).
+
+from .. import nested, nestedcheck  # noqa: E402
+
+NM_OTHERS = ['LockedHierarchicalMachine', 'HierarchicalGraphMachine', 'LockedHierarchicalGraphMachine']
+ONF = SLOT['on_final']
+
+
+def nm_knobs():
+    return nested.NKnobs(max_history=4, max_states=10, max_depth=3, p_cmds=0.06, p_unknown_event=0.04, p_queued=0.35)
+
+
+def nm_decorate(d, rng):
+    """final flags, on_final lists (states and machine) and, on unqueued machines, callbacks that trigger events"""
+    nxt = [max(d.cb_slot) + 1 if d.cb_slot else 0]
+
+    def cb():
+        c = nxt[0]
+        nxt[0] += 1
+        d.cb_slot[c] = ONF
+        return c
+    for _p, n in d.walk():
+        leaf = not n['children']
+        n['final'] = rng.random() < (0.5 if leaf else 0.2)
+        n['on_final'] = [cb() for _ in range(rng.choice([0, 1, 1, 2]))]
+    d.on_final = [cb()] if rng.random() < 0.6 else []
+    if not d.queued and rng.random() < 0.25:
+        known = sorted(set([e for e, _ in d.events] + [e for _p, n in d.walk() for e, _ts in n['local']])) or [0]
+        cands = [c for c, sl in d.cb_slot.items() if sl not in (SLOT['conditions'], SLOT['unless'], FIN, EXC)]
+        for _ in range(rng.choice([1, 1, 2])):
+            c = rng.choice(cands)
+            k = rng.randrange(2)
+            if (c, k) not in d.script:
+                d.script[(c, k)] = ([(flat.TRIGGER, 0, rng.choice(known))], ('ret', True))
+    return d
+
+
+def nm_gen(rng):
+    return nm_decorate(nested.gen_nested(rng, nm_knobs()), rng)
+
+
+def nm_variants(base, items, rng, all_positions):
+    calls = [(i, it) for i, it in enumerate(items) if it[0] == 'call']
+    seen, order = {}, {}
+    for i, it in calls:
+        order[i] = seen.get(it[2], 0)
+        seen[it[2]] = order[i] + 1
+    if not all_positions and len(calls) > 5:
+        # keep the rarer slots represented
+        rare = [c for c in calls if c[1][1] in (ONF, SLOT['on_exit'], SLOT['on_enter'], SLOT['after'])]
+        pick = rng.sample(rare, min(3, len(rare)))
+        rest = [c for c in calls if c not in pick]
+        calls = pick + rng.sample(rest, min(5 - len(pick), len(rest)))
+    for pos, it in calls:
+        cid, k = it[2], order[pos]
+        for handlers in (False, True):
+            if not all_positions and rng.random() < 0.3:
+                continue
+            d = nested.NDesc.from_json(base.to_json())
+            kind = 4 if rng.random() < 0.35 else 3
+            nn = rng.randrange(3)
+            if rng.random() < 0.2:
+                kind, nn = rng.choice([2, 6, 7, 8, 9, 10]), 0
+            cmds = d.script.get((cid, k), ((), None))[0]
+            d.script[(cid, k)] = (list(cmds), ('raise', kind, nn))
+            extra = None
+            if handlers:
+                hid = max(d.cb_slot) + 1
+                d.cb_slot[hid] = EXC
+                d.on_exception = [hid]
+                if rng.random() < 0.4:
+                    d.cb_slot[hid + 1] = EXC
+                    d.on_exception.append(hid + 1)
+                if rng.random() < 0.2:
+                    d.script[(hid, 0)] = ([], ('raise', 3, 2))
+                    extra = 'handler-raises'
+            if d.finalize and rng.random() < 0.2:
+                f = rng.choice(d.finalize)
+                for kk in range(8):
+                    d.script.setdefault((f, kk), ([], ('raise', 4 if rng.random() < 0.5 else 3, 1)))
+                extra = (extra + '+' if extra else '') + 'finalize-raises'
+            yield d, {'pos': pos, 'slot': common.SLOTS[it[1]], 'handlers': handlers,
+                      'exc': {3: 'User', 4: 'Base'}.get(kind, 'builtin-%d' % kind), 'extra': extra}
+
+
+def nm_parse(ans):
+    """`T <items> C <state values> Q <queue lengths>`"""
+    if ans in ('oof', 'noinit'):
+        return None
+    if not ans.startswith('T '):
+        raise common.MachineryError('driver answered %r' % ans[:200])
+    t, rest = ans[2:].split(' C ')
+    c, q = rest.split(' Q')
+    nums = [int(x) for x in t.split()]
+    items, pos = common.dec_items(nums)
+    if pos != len(nums):
+        raise common.MachineryError('trailing numbers in driver trace')
+    return items, nested.dec_svals([int(x) for x in c.split()]), [int(x) for x in q.split()]
+
+
+def nm_run(d, cls, cont=None, place=None):
+    """(run, error): history of `d` (then `cont`) on class `cls`; `place` = (state value, counts, next tag) to start from"""
+    import signal
+    old = signal.signal(signal.SIGALRM, nested._on_alarm)
+    signal.alarm(30)
+    r = None
+    try:
+        r = nested.NestedRun(d, cls)
+        if place is not None:
+            stv, counts, tag = place
+            r.machine.set_state(stv, r.model)
+            r.counts = dict(counts)
+            r.next_tag = tag
+            r.states_after.append(r.state_value())
+        else:
+            r.run()
+        r.n0 = len(r.items)
+        for ev in cont or ():
+            try:
+                r.trigger(ev)
+            except BaseException as e:
+                if isinstance(e, (common.MachineryError, KeyboardInterrupt, nested.CaseTimeout)):
+                    raise
+            r.states_after.append(r.state_value())
+        return r, None
+    except nested.CaseTimeout:
+        return r, 'hang'
+    except common.MachineryError:
+        raise
+    except BaseException as e:
+        return None, '%s: %s' % (type(e).__name__, str(e)[:200])
+    finally:
+        signal.alarm(0)
+        signal.signal(signal.SIGALRM, old)
+
+
+def nm_requests(d, runs):
+    """driver requests for one variant: the model run over history + continuation, one monitor per recorded run"""
+    reqs = [('nested4', d.enc_cfg4() + d.enc_script() + nested._l(list(d.history) + list(d.cont)))]
+    for r in runs:
+        reqs.append(('c04n', d.enc_cfg4() + nested.enc_sval(r.states_after[0]) + common.enc_items(r.items)))
+    return reqs
+
+
+def nm_judge(case, d, hm, err, other, oerr, fresh, ferr, answers):
+    out = []
+    info = case.get('info')
+
+    def fail(kind, what, details, sig=None, cls=None):
+        out.append(Failure(kind, what, dict(case, cls=cls) if cls else case, dict(details, crash=info), signature=sig))
+    if err or hm is None:
+        fail('monitor' if err == 'hang' else 'correspondence', 'nested-' + (err or 'no-run').split(':')[0], {'error': err},
+             sig='C04.nested.hang' if err == 'hang' else None)
+        return out
+    if hm.bad:
+        fail('monitor', 'nested-recorder:' + hm.bad[0][0], {'bad': hm.bad[:4]}, sig='C04.nested.' + hm.bad[0][0])
+    m = nm_parse(answers[0])
+    if m is not None:
+        items, vals, _q = m
+        if items != hm.items or vals != hm.states_after:
+            k = next((i for i, (x, y) in enumerate(zip(items, hm.items)) if x != y), min(len(items), len(hm.items)))
+            fail('correspondence', 'nested_trace_eq', {
+                'first_difference_at': k, 'model': [common.show_item(i) for i in items[max(0, k - 4):k + 3]],
+                'impl': [common.show_item(i) for i in hm.items[max(0, k - 4):k + 3]],
+                'model_states': vals, 'impl_states': hm.states_after})
+    elif answers[0] == 'noinit':
+        fail('correspondence', 'nested_model_noinit', {})
+    if answers[1] != 'ok':
+        if not answers[1].startswith('reject'):
+            raise common.MachineryError('monitor answered %r' % answers[1][:200])
+        fail('monitor', 'nested-containment-monitor', {
+            'monitor': answers[1], 'class': 'HierarchicalMachine',
+            'impl_trace': [common.show_item(i) for i in hm.items[:120]], 'states': hm.states_after},
+            sig='C04.nested.monitor')
+    if other is not None or oerr:
+        cls = case['cls']
+        if oerr or other is None:
+            fail('monitor' if oerr == 'hang' else 'correspondence', 'nested-' + (oerr or 'no-run').split(':')[0] + ':' + cls,
+                 {'error': oerr}, sig='C04.nested.hang' if oerr == 'hang' else None, cls=cls)
+        else:
+            if other.items != hm.items or other.states_after != hm.states_after:
+                k = next((i for i, (x, y) in enumerate(zip(other.items, hm.items)) if x != y), min(len(other.items), len(hm.items)))
+                fail('correspondence', 'nested_class_differential:' + cls, {
+                    'first_difference_at': k, 'reference': [common.show_item(i) for i in hm.items[max(0, k - 4):k + 3]],
+                    'observed': [common.show_item(i) for i in other.items[max(0, k - 4):k + 3]]}, cls=cls)
+            if answers[2] != 'ok':
+                fail('monitor', 'nested-containment-monitor', {
+                    'monitor': answers[2], 'class': cls, 'impl_trace': [common.show_item(i) for i in other.items[:120]]},
+                    sig='C04.nested.monitor', cls=cls)
+    # survivor vs fresh
+    if ferr == 'hang':
+        fail('monitor', 'nested-fresh-hangs', {}, sig='C04.nested.hang')
+    elif ferr:
+        fail('monitor', 'nested-state-after-failure-not-usable', {'error': ferr, 'state': hm.states_after[len(d.history)]},
+             sig='C04.nested.state')
+    elif fresh is not None:
+        a, b = hm.items[hm.n0:], fresh.items
+        sa, sb = hm.states_after[len(d.history):], fresh.states_after
+        if a != b or sa != sb:
+            k = next((i for i, (x, y) in enumerate(zip(a, b)) if x != y), min(len(a), len(b)))
+            fail('monitor', 'nested-survivor-differs-from-fresh', {
+                'first_difference_at': k, 'survivor': [common.show_item(i) for i in a[max(0, k - 3):k + 4]],
+                'fresh': [common.show_item(i) for i in b[max(0, k - 3):k + 4]], 'survivor_states': sa, 'fresh_states': sb},
+                sig='C04.nested.survivor')
+    return out
+
+
+def nm_eval(cases):
+    """cases: list of dicts {'nm': True, 'desc', 'cont', 'cls', 'info'}; returns list of (failures, hm run)"""
+    prepared = []
+    reqs = []
+    for case in cases:
+        d = nested.NDesc.from_json(case['desc'])
+        d.cont = list(case['cont'])
+        hm, err = nm_run(d, 'HierarchicalMachine', cont=d.cont)
+        other, oerr = (None, None)
+        runs = []
+        fresh, ferr = None, None
+        if hm is not None and not err:
+            runs.append(hm)
+            if case.get('cls'):
+                other, oerr = nm_run(d, case['cls'], cont=d.cont)
+                if other is not None and not oerr:
+                    runs.append(other)
+            k = len(d.history)
+            # the machine is idle between calls: the fresh machine starts from the recorded state value
+            pre = nested.NestedRun(d, 'HierarchicalMachine')
+            pre.run()
+            fresh, ferr = nm_run(d, 'HierarchicalMachine', cont=d.cont,
+                                 place=(hm.states_after[k], pre.counts, pre.next_tag))
+        n = len(reqs)
+        if runs:
+            reqs += nm_requests(d, runs)
+        prepared.append((case, d, hm, err, other, oerr, fresh, ferr, n, len(reqs) - n))
+    answers = common.batch_driver(reqs) if reqs else []
+    out = []
+    for case, d, hm, err, other, oerr, fresh, ferr, n, k in prepared:
+        ans = answers[n:n + k]
+        if k == 2:
+            ans = ans + ['ok']
+        out.append((nm_judge(case, d, hm, err, other, oerr, fresh, ferr, ans) if k else
+                    nm_judge(case, d, hm, err or 'no-run', None, None, None, None, []), hm))
+    return out
+
+
+def nm_chunk(seed, idx, nbase, tier):
+    rng = random.Random('C04/nested-model/%d/%d' % (seed, idx))
+    ex = Exploration()
+    cases = []
+    for b in range(nbase):
+        base = nm_gen(rng)
+        clean, err = nested.run_guarded(base, 'HierarchicalMachine')
+        if err or clean is None:
+            continue
+        known = sorted(set([e for e, _ in base.events] + [e for _p, n in base.walk() for e, _ts in n['local']])) or [0]
+        k = 0
+        for d, info in nm_variants(base, clean.items, rng, tier == 'thorough'):
+            cont = [rng.choice(known) for _ in range(3)]
+            cls = NM_OTHERS[(idx + b + k) % len(NM_OTHERS)] if (tier == 'thorough' or k % 2 == 0) else None
+            k += 1
+            cases.append({'nm': True, 'desc': d.to_json(), 'cont': cont, 'cls': cls, 'info': info})
+    for i in range(0, len(cases), 60):
+        part = cases[i:i + 60]
+        for case, (fs, hm) in zip(part, nm_eval(part)):
+            ex.evaluations += 1
+            ex.traces_validated += 1 + (1 if case['cls'] else 0)
+            d = nested.NDesc.from_json(case['desc'])
+            ex.nontrivial.add('nm' + nestedcheck.fingerprint(d))
+            info = case['info']
+            for key, val in (('crash_slot', info['slot']), ('class', 'nested-model:HierarchicalMachine'),
+                             ('class', 'nested-model:' + str(case['cls'])), ('handlers', str(info['handlers'])),
+                             ('exc', info['exc']), ('second_fault', str(info['extra'])), ('queued', str(d.queued)),
+                             ('nested_reentrant', str(any(v[0] for v in d.script.values())))):
+                h = ex.stats.setdefault(key, {})
+                h[val] = h.get(val, 0) + 1
+            if hm is not None:
+                shape = 'single'
+                for v in hm.states_after:
+                    if isinstance(v, list):
+                        shape = 'parallel-in-parallel' if any(isinstance(x, list) for x in v) else \
+                            ('parallel' if shape == 'single' else shape)
+                h = ex.stats.setdefault('nested_configuration_shape', {})
+                h[shape] = h.get(shape, 0) + 1
+                if len(ex.samples) < 1:
+                    ex.samples.append({'stream': 'nested-model', 'crash': info, 'history': d.history,
+                                       'states': hm.states_after[:6], 'trace': [common.show_item(i) for i in hm.items[:40]]})
+            ex.failures += fs
+        if any(f.what.startswith('nested-hang') for f in ex.failures):
+            break
+    return ex
+
+
+def nm_shrink_steps(case):
+    for c in nestedcheck.shrink_steps(case):
+        yield c
+    for i in range(len(case['cont'])):
+        c = copy.deepcopy(case)
+        del c['cont'][i]
+        yield c
+    if case.get('cls'):
+        yield dict(case, cls=None)
+
+
+def nm_fails_like(kind, what):
+    def f(case):
+        return any(x.kind == kind and x.what == what for x in nm_eval([case])[0][0])
+    return f
+
+
+_explore2 = C04.explore
+_replay2 = C04.replay
+_search2 = C04.search
+
+
+def _explore_nm(self, tier, seed):
+    ex = _explore2(self, tier, seed)
+    nch, per = (16, 3) if tier == 'quick' else (48, 12)
+    part_ex = Exploration()
+    for part in runner.parallel(nm_chunk, [(seed, i, per, tier) for i in range(nch)]):
+        part_ex.merge(part)
+    done = set()
+    for f in part_ex.failures:
+        key = (f.kind, f.what)
+        if key in done:
+            continue
+        done.add(key)
+        try:
+            f.case = runner.shrink(f.case, nm_fails_like(f.kind, f.what), nm_shrink_steps,
+                                   budget=10 if 'hang' in f.what else 200)
+        except common.MachineryError:
+            raise
+        except BaseException:
+            pass
+    ex.merge(part_ex)
+    return ex
+
+
+def _search_nm(self, tier, seed, failures):
+    found = _search2(self, tier, seed, failures)
+    if found:
+        return found
+    for part in runner.parallel(nm_chunk, [(seed + 7919, i, 10, 'thorough') for i in range(32)]):
+        found += [f for f in part.failures if f.kind == 'monitor']
+    for f in found[:1]:
+        f.case = runner.shrink(f.case, nm_fails_like(f.kind, f.what), nm_shrink_steps, budget=200)
+    return found
+
+
+def _replay_nm(self, path):
+    import json
+    with open(path) as fh:
+        payload = json.load(fh)
+    case = payload.get('case')
+    if case and case.get('nm'):
+        d = nested.NDesc.from_json(case['desc'])
+        print('class:', case.get('cls') or 'HierarchicalMachine', ' initial:', nested.pname(d.initial), ' queued:', d.queued,
+              ' history:', d.history, ' continuation:', case['cont'], ' crash:', case.get('info'))
+        (fs, hm), = nm_eval([case])
+        if hm is not None:
+            print('states after each call:', hm.states_after)
+            for i in hm.items:
+                print('   ', common.show_item(i))
+        for f in fs:
+            print('FAIL', f.kind, f.what, json.dumps(f.details, default=str)[:3000])
+        return 1 if fs else 0
+    return _replay2(self, path)
+
+
+C04.explore = _explore_nm
+C04.search = _search_nm
+C04.replay = _replay_nm
